@@ -1,4 +1,4 @@
-import RV.C01.LemIter
+import RV.C01.LemBin
 /-
   C01 helper lemmas (entry point).  The lemmas are split over
     LemA      association lists, context-set equality, `getC` / `getT` under the store's updates
@@ -8,5 +8,6 @@ import RV.C01.LemIter
     LemOps    `Graph` operations: addN, set, +=, -=, new graphs of the binary operators
     LemSimple `SimpleMemory`
     LemIter   histories keep the invariant; generator interleaved with mutations
+    LemBin    binary operators over operands of any store; `__iter__` under mutation = start snapshot
     LemStore  store-level API: remove(pattern, None), __all_contexts, contexts, add_graph, remove_graph
 -/
